@@ -28,12 +28,10 @@ BASELINE = json.load(open("/root/.vp/BASELINE.json"))["stable_pass"]
 
 def make_copy(mut) -> str:
     d = tempfile.mkdtemp(prefix="verif-mut-", dir="/var/tmp")
-    for sub in ("src", "tests", "pyproject.toml"):
-        s = os.path.join("/repo", sub)
-        if os.path.isdir(s):
-            shutil.copytree(s, os.path.join(d, sub))
-        else:
-            shutil.copy(s, os.path.join(d, sub))
+    # the COMMITTED tree of /repo (its working tree may carry a seeded patch under confrontation at this moment)
+    src = os.environ.get("VP_RUN_REPO") or "/repo"
+    tar = subprocess.run(["git", "-C", src, "archive", "HEAD", "src", "tests", "pyproject.toml"], capture_output=True, check=True)
+    subprocess.run(["tar", "-x", "-C", d], input=tar.stdout, check=True)
     for path, old, new in mut["edits"]:
         p = os.path.join(d, path)
         txt = open(p).read()
